@@ -131,6 +131,39 @@ def one_history(res, rng, files, api):
         res.count('histories_with_reuse')
 
 
+def interleaved_parses(res, rng, kinds=('v2', 'v2'), prefix='c02'):
+    """Two (or three) parses alive in one process on different dumps, their lazy generators advanced alternately (as
+    zip() or heapq.merge() over several dumps does): every event still carries the fields of its own record."""
+    import itertools
+    from pykdebugparser.kd_buf_parser import KdBufParser
+    from pykdebugparser.pykdebugparser import PyKdebugParser
+    files = [gen.gen_v2(rng, first_nonzero=True, m=rng.choice((1, 2, 5, 40, 300))) if k == 'v2' else
+             gen.gen_v3(rng, m=rng.choice((1, 2, 5, 40, 300)), n=2) for k in kinds]
+    use_top = rng.random() < 0.5
+    gens = [(PyKdebugParser().kevents(io.BytesIO(f['data'])) if use_top else
+             (e for e in KdBufParser({}, {}).parse(io.BytesIO(f['data'])) if hasattr(e, 'debugid'))) for f in files]
+    got = [[] for _ in files]
+    try:
+        for row in itertools.zip_longest(*gens):
+            for i, e in enumerate(row):
+                if e is not None:
+                    got[i].append(wire.event_tuple(e))
+    except Exception as x:
+        res.violation(f'{prefix}-interleaved-raises-{core.exc_name(x)}', f'{len(files)} parses advanced alternately: {x!r}',
+                      {'files': [f['data'] for f in files]})
+        return
+    for i, f in enumerate(files):
+        res.case(f['data'])
+        res.count('interleaved_parses')
+        if got[i] != [wire.ref_tuple(r) for r in f['records']]:
+            k = next((j for j, (a, b) in enumerate(zip(got[i], [wire.ref_tuple(r) for r in f['records']])) if a != b),
+                     min(len(got[i]), len(f['records'])))
+            res.violation(f'{prefix}-interleaved-parses', f'{len(files)} dumps parsed at the same time, their generators advanced '
+                          f'alternately: event {k} of dump {i} ({f["kind"]}, {len(f["records"])} records) does not carry the '
+                          f'fields of its own record', {'files': [x['data'] for x in files]})
+            return
+
+
 def run(ctx):
     res = core.Result()
     rng = ctx.rng
@@ -193,6 +226,8 @@ def run(ctx):
                      'data': wire.v2_file(entries, pad, recs)}
                 one_history(res, rng, [f], 'top')
                 res.count('zero_leading_first_record_files')
+        for _ in range(ctx.pick(12, 300)):
+            interleaved_parses(res, rng, rng.choice((('v2', 'v2'), ('v2', 'v3'), ('v3', 'v3'), ('v2', 'v2', 'v3'))))
         # large dumps: record counts beyond 8- and 16-bit limits, thread maps of hundreds of entries
         for m in ctx.pick((300, 5000), (70000, 300, 66000)):
             entries = [(rng.getrandbits(64), rng.getrandbits(32), rng.choice(gen.NAMES), b'') for _ in range(rng.choice((300, 1000)))]
@@ -222,6 +257,7 @@ def run(ctx):
     res.require('parses_checked', 10)
     res.require('histories_with_reuse', 1)
     res.require('related_map_histories', 10)
+    res.require('interleaved_parses', 10)
     res.require('contract_evaluations', 1)
     return res
 
